@@ -160,6 +160,10 @@ Qed.
 Lemma cap_ok_init l o : o <= l -> cap_ok (qinit l o).
 Proof. intros H. unfold cap_ok; cbn. repeat split; try lia. constructor. Qed.
 
+Lemma tokens_le_capacity cas l o tr s os :
+  o <= l -> qrun cas (qinit l o) tr = Some (s, os) -> b_tokens (q_b s) <= q_cap s.
+Proof. intros H R. exact (proj1 (qrun_cap cas tr _ _ _ (cap_ok_init l o H) R)). Qed.
+
 (* ---- constant configuration: refill = once * ticks, capacity = limit ---- *)
 Definition const_pc (o : Z) (p : tpc) : Prop :=
   match p with QTickLoaded _ _ o' _ => o' = o | _ => True end.
@@ -298,4 +302,133 @@ Proof.
     + destruct (opt_take handler) as [h' ok2]. cbn in Eh. subst ok2. split; [tauto | congruence].
     + rewrite Eh. split; [split; [discriminate | tauto] | intros _; cbn; auto].
   - rewrite Eo. split; [split; [discriminate | tauto] | intros _; cbn; auto].
+Qed.
+
+(* ---- the pinned updateToken with one ticker goroutine: the exact slack ----
+   admitted in a window <= tokens at its start + refills of its ticks + the number of
+   takes admitted between the load and the store of those ticks (q_slack). *)
+Definition debt_ok (tokens : Z) (p : tpc) : Prop :=
+  match p with
+  | QTickLoaded v v' o g => 0 < o /\ v' <= Z.max v 0 + o /\ Z.max v 0 - Z.max tokens 0 <= g
+  | _ => True
+  end.
+
+Definition inv1 (s : qstate) : Prop :=
+  0 < b_once (q_b s) /\ sumz is_loaded (q_th s) <= 1 /\
+  Forall (debt_ok (b_tokens (q_b s))) (q_th s).
+
+Lemma is_loaded_nonneg p : 0 <= is_loaded p.
+Proof. destruct p; cbn; lia. Qed.
+
+Lemma sumz_zero_Forall {A} (f : A -> Z) (l : list A) :
+  (forall x, 0 <= f x) -> sumz f l = 0 -> Forall (fun x => f x = 0) l.
+Proof.
+  intros Hf. induction l as [|x r IH]; cbn; intros H; constructor.
+  - pose proof (Hf x). pose proof (sumz_nonneg A f Hf r). lia.
+  - apply IH. pose proof (Hf x). pose proof (sumz_nonneg A f Hf r). lia.
+Qed.
+
+Lemma not_loaded_debt t p : is_loaded p = 0 -> debt_ok t p.
+Proof. destruct p; cbn; auto; lia. Qed.
+
+Lemma sumz_map_bump l : sumz is_loaded (map bump l) = sumz is_loaded l.
+Proof. induction l as [|p r IH]; cbn; [reflexivity|]. rewrite IH. destruct p; reflexivity. Qed.
+
+Lemma qstep1_pot s e s' o : inv1 s -> one_ticker s e = true -> qstep false s e = Some (s', o) ->
+  inv1 s' /\
+  (q_adm s' - q_adm s) + pot s' <=
+    pot s + (q_refill s' - q_refill s) + (q_slack s' - q_slack s) /\
+  q_adm s' - q_adm s = count_admitted [o] /\
+  q_ticks s' - q_ticks s = count_ticks [o].
+Proof.
+  intros (Ho & Hone & Hth) Hg Hst. unfold pot.
+  pose proof (Forall_getn tpc QIdle (debt_ok (b_tokens (q_b s))) I _ Hth) as Hget.
+  destruct e as [i | i | i | l | o']; cbn [qstep] in Hst; cbn [one_ticker] in Hg.
+  - destruct (getn QIdle i (q_th s)) eqn:Ei; try discriminate.
+    destruct (b_tokens (q_b s) <=? 0) eqn:Et; inversion Hst; subst; clear Hst; cbn.
+    + split; [repeat split; assumption|]. repeat split; lia.
+    + split; [|repeat split; lia]. unfold inv1; cbn. split; [exact Ho|]. split.
+      * rewrite sumz_upd by reflexivity. rewrite Ei. cbn. lia.
+      * apply Forall_upd; cbn; auto.
+  - destruct (getn QIdle i (q_th s)) eqn:Ei; try discriminate.
+    apply Z.eqb_eq in Hg.
+    inversion Hst; subst; clear Hst; cbn. split; [|repeat split; lia].
+    unfold inv1; cbn. split; [exact Ho|]. split.
+    + rewrite sumz_upd by reflexivity. rewrite Ei. cbn. lia.
+    + apply Forall_upd; cbn; auto. split; [exact Ho|]. split; [apply refill_value_ok; exact Ho | lia].
+  - specialize (Hget i). destruct (getn QIdle i (q_th s)) as [| | v v' oo g] eqn:Ei; try discriminate.
+    + (* take: add -1 *)
+      inversion Hst; subst; clear Hst; cbn.
+      destruct (0 <=? b_tokens (q_b s) - 1) eqn:E; [apply Z.leb_le in E|apply Z.leb_gt in E]; cbn.
+      * split; [|repeat split; lia]. unfold inv1; cbn. split; [exact Ho|]. split.
+        -- rewrite sumz_map_bump. rewrite sumz_upd by reflexivity. rewrite Ei. cbn. lia.
+        -- assert (F : Forall (debt_ok (b_tokens (q_b s))) (upd QIdle i QIdle (q_th s)))
+             by (apply Forall_upd; cbn; auto).
+           clear -F E. induction F as [|p r Hp Hr IH]; cbn; constructor; [|exact IH].
+           destruct p; cbn in *; auto. lia.
+      * split; [|repeat split; lia]. unfold inv1; cbn. split; [exact Ho|]. split.
+        -- rewrite sumz_upd by reflexivity. rewrite Ei. cbn. lia.
+        -- assert (F : Forall (debt_ok (b_tokens (q_b s))) (upd QIdle i QIdle (q_th s)))
+             by (apply Forall_upd; cbn; auto).
+           clear -F E. induction F as [|p r Hp Hr IH]; cbn; constructor; [|exact IH].
+           destruct p; cbn in *; auto. lia.
+    + (* updateToken: plain store *)
+      cbn in Hget. destruct Hget as (Hoo & Hv' & Hd).
+      cbn in Hst. inversion Hst; subst; clear Hst; cbn.
+      assert (Hz : sumz is_loaded (upd QIdle i QIdle (q_th s)) = 0).
+      { rewrite sumz_upd by reflexivity. rewrite Ei. cbn.
+        pose proof (sumz_nonneg tpc is_loaded is_loaded_nonneg (q_th s)).
+        assert (1 <= sumz is_loaded (q_th s)).
+        { destruct (sumz_ge_at tpc QIdle is_loaded is_loaded_nonneg i (q_th s)) as [H1|H1];
+            rewrite Ei in H1; cbn in H1; lia. }
+        lia. }
+      split; [|repeat split; lia]. unfold inv1; cbn. split; [exact Ho|]. split; [lia|].
+      eapply Forall_impl; [|apply (sumz_zero_Forall is_loaded _ is_loaded_nonneg Hz)].
+      intros p Hp. apply not_loaded_debt. exact Hp.
+  - inversion Hst; subst; clear Hst; cbn. split; [repeat split; assumption | repeat split; lia].
+  - destruct ((0 <? o') && (o' <=? b_limit (q_b s))) eqn:E; [|discriminate].
+    apply andb_true_iff in E. destruct E as [E1 E2]. apply Z.ltb_lt in E1.
+    inversion Hst; subst; clear Hst; cbn. split; [repeat split; assumption | repeat split; lia].
+Qed.
+
+Lemma qrun1_pot tr : forall s s' os, inv1 s -> qrun1 false s tr = Some (s', os) ->
+  inv1 s' /\
+  (q_adm s' - q_adm s) + pot s' <=
+    pot s + (q_refill s' - q_refill s) + (q_slack s' - q_slack s) /\
+  q_adm s' - q_adm s = count_admitted os /\
+  q_ticks s' - q_ticks s = count_ticks os.
+Proof.
+  induction tr as [|e r IH]; intros s s' os Hi Hrun; cbn [qrun1] in Hrun.
+  - inversion Hrun; subst. split; [exact Hi|]. cbn. repeat split; lia.
+  - destruct (one_ticker s e) eqn:Eg; [|discriminate].
+    destruct (qstep false s e) as [[s1 o]|] eqn:E; [|discriminate].
+    destruct (qrun1 false s1 r) as [[s2 os2]|] eqn:E2; [|discriminate].
+    inversion Hrun; subst; clear Hrun.
+    destruct (qstep1_pot _ _ _ _ Hi Eg E) as (Hi1 & Hp1 & Ha1 & Ht1).
+    destruct (IH _ _ _ Hi1 E2) as (Hi2 & Hp2 & Ha2 & Ht2).
+    rewrite count_admitted_cons, count_ticks_cons.
+    split; [exact Hi2|]. repeat split; lia.
+Qed.
+
+Lemma inv1_init l o : 0 < o -> inv1 (qinit l o).
+Proof. intros H. unfold inv1; cbn. repeat split; try lia. constructor. Qed.
+
+Lemma bucket_window_prefix l o tr0 s os0 tr s' os : 0 < o ->
+  qrun1 false (qinit l o) tr0 = Some (s, os0) ->
+  qrun1 false s tr = Some (s', os) ->
+  count_admitted os <=
+    Z.max (b_tokens (q_b s)) 0 + (q_refill s' - q_refill s) + (q_slack s' - q_slack s).
+Proof.
+  intros Ho R0 R.
+  destruct (qrun1_pot tr0 _ _ _ (inv1_init l o Ho) R0) as (Hi & _).
+  destruct (qrun1_pot tr _ _ _ Hi R) as (_ & Hp & Ha & _).
+  pose proof (pot_nonneg s'). unfold pot in *. lia.
+Qed.
+
+(* the refuting schedule is a one-ticker schedule, and its slack term is 3 *)
+Lemma prefix_witness_one_ticker :
+  exists s' os, qrun1 false (qinit 3 1) witness_lost_update = Some (s', os) /\
+                count_admitted os = 6 /\ q_refill s' = 1 /\ q_slack s' = 3.
+Proof.
+  eexists. eexists. split; [vm_compute; reflexivity|]. vm_compute. repeat split; reflexivity.
 Qed.
